@@ -39,10 +39,19 @@ def run(ctx):
             roots.append(b.path)
     reach = cg.reach(roots)
     ctx.extra["solver_reachable_functions"] = len(reach)
+    # write-once cells (OnceLock / LazyLock / Once ..) touched only by functions that cannot matter to the search hold
+    # process-wide data (e.g. "is tracing enabled"), the same for every query: not per-query state
+    S._neutral_setup()
+    process_wide = set()
+    for st_path in S.write_once_statics:
+        users = [p for p in cg.nodes if any(a["static"] == st_path for a in acc.get(p, []))]
+        if users and all(S.neutral(u) for u in users):
+            process_wide.add(st_path)
+    ctx.extra["process_wide_write_once_statics"] = sorted(process_wide)
     G = {}
     for p in reach:
         for a in acc.get(p, []):
-            if a["static"] in mutable and a["kind"] == "read":
+            if a["static"] in mutable and a["static"] not in process_wide and a["kind"] == "read":
                 G.setdefault(a["static"], []).append((p, a["line"]))
         # thread-locals or statics not in this crate's item list but mutable
         for a in acc.get(p, []):
